@@ -1,6 +1,7 @@
 package pcv
 
 import (
+	"go/token"
 	"fmt"
 	"go/constant"
 	"go/types"
@@ -295,6 +296,165 @@ func runC10(c *Ctx) {
 	s.checkHealthReset(c, "health-reset")
 	s.checkStatusStoreCallsHook(c, "status-store-calls-hook")
 	s.checkProberLifecycle(c, "prober-lifecycle")
+	s.checkDaemonRelease(c, "daemon-released-after-configured-stop")
+	// the probers exist and run: the constructor creates them from the configured probes, the run loop starts them
+	// after every successful launch and before it waits for the command
+	{
+		rule := c.Rule("probers-created-and-started", "the Process constructor reaches, on every path, the function that stores health.New(...) into readyProber (under ReadinessProbe != nil) and liveProber (under LivenessProbe != nil), each with the matching configured probe and this process's check-completed callback; in the run loop every path from a successful launch to command.Wait() passes a call that may start both probers")
+		proberStart := p.TryMethod("health", "Prober", "Start")
+		healthNew := p.TryFunc("health", "New")
+		fReadyCfg := p.Field("types", "ProcessConfig", "ReadinessProbe")
+		fLiveCfg := p.Field("types", "ProcessConfig", "LivenessProbe")
+		ctor := p.TryFunc("app", "NewProcess")
+		if c.Check(proberStart != nil && healthNew != nil && ctor != nil, rule, "shape", "", "Prober.Start, health.New and the constructor found", "Prober.Start / health.New / NewProcess not found") {
+			for _, pr := range []struct {
+				fld, cfg *types.Var
+			}{{s.FReadyProber, fReadyCfg}, {s.FLiveProber, fLiveCfg}} {
+				// creation sites: store of Extract#0 of health.New whose probe argument is read from the matching config field
+				var creators []*ssa.Function
+				okArg := false
+				for _, f := range p.FuncsWith(StoreTo("prober", pr.fld)) {
+					for _, in := range DirectSites(f, StoreTo("prober", pr.fld)) {
+						v, _ := StoredValue(in, pr.fld)
+						ex, isEx := stripConv(v).(*ssa.Extract)
+						if !isEx {
+							continue
+						}
+						call, isC := ex.Tuple.(*ssa.Call)
+						if !isC || call.Call.StaticCallee() != healthNew {
+							continue
+						}
+						creators = appendUniq(creators, f)
+						for _, a := range call.Call.Args {
+							if PathOf(a).LastField() == pr.cfg {
+								okArg = true
+							}
+						}
+						// guarded by nothing but the configured probe being set
+						for _, g := range GuardsOf(in) {
+							cmp, isCmp := g.Cmp()
+							if !isCmp || !(PathOf(cmp.X).LastField() == pr.cfg || PathOf(cmp.Y).LastField() == pr.cfg) {
+								okArg = false
+							}
+						}
+					}
+				}
+				c.Check(len(creators) >= 1 && okArg, rule, "created:"+pr.fld.Name(), FirstPos(p, ctor), "created from the configured probe whenever it is set", "the prober is not created from process."+pr.cfg.Name()+" whenever that probe is configured")
+				if len(creators) >= 1 {
+					mk := p.Deep(CallOfFn("create prober", creators...))
+					barrier := func(in ssa.Instruction) bool {
+						switch in.(type) {
+						case *ssa.Go, *ssa.Defer:
+							return false
+						}
+						return mk.MayAt(in)
+					}
+					bad := false
+					for in := range Reach(Entry(ctor), barrier, nil) {
+						if _, isRet := in.(*ssa.Return); isRet {
+							bad = true
+						}
+					}
+					c.Check(!bad, rule, "constructor-creates:"+pr.fld.Name(), FirstPos(p, ctor), "the constructor sets the prober up on every path", "a path of the Process constructor returns without setting up "+pr.fld.Name()+": the configured probe never runs, so the process never becomes Ready / is never restarted on failures")
+				}
+				// started after the launch
+				startD := p.Deep(Site{Name: "Prober.Start on " + pr.fld.Name(), Call: func(cc *ssa.CallCommon) bool {
+					return cc.StaticCallee() == proberStart && len(cc.Args) > 0 && PathOf(cc.Args[0]).LastField() == pr.fld
+				}})
+				for _, re := range s.RunEntries {
+					launchD := p.Deep(s.LaunchSite)
+					waits := DirectSites(re, MethodOnField("command.Wait", s.FCommand, s.MWait))
+					for _, in := range FindInstrs(re, func(x ssa.Instruction) bool { cc, ok := x.(*ssa.Call); return ok && launchD.MayAt(cc) }) {
+						call := in.(*ssa.Call)
+						barrier := func(x ssa.Instruction) bool {
+							switch x.(type) {
+							case *ssa.Go, *ssa.Defer:
+								return false
+							}
+							return startD.MayAt(x)
+						}
+						vis := Reach([]Pt{after(call)}, barrier, ErrNilEdge(call, true))
+						bad := false
+						for _, w := range waits {
+							if vis[w] {
+								bad = true
+							}
+						}
+						c.Check(!bad && len(waits) > 0, rule, "started:"+pr.fld.Name(), p.InstrPos(call), "started between launch and wait", "after a successful launch the run loop can reach command.Wait() without starting "+pr.fld.Name()+": the probe never runs for this (or for a restarted) instance")
+					}
+				}
+			}
+		}
+	}
+	// a launched daemon is alive until its liveness probe or a stop says otherwise
+	{
+		rule := c.Rule("daemon-wait", "in the run loop, on the edge on which the daemon predicate (IsDaemon and launcher exit code 0) holds, the daemon wait (the receive from procStateChan) follows on every path before the restart decision; the wait is never made conditional on the predicate being false")
+		var waitFns []*ssa.Function
+		for _, f := range p.FuncsOfPkg("app") {
+			if s.IsProcessMethod(f) && f.Parent() == nil && len(DirectSites(f, Site{Name: "<-procStateChan", Instr: func(in ssa.Instruction) bool {
+				return IsRecvFrom(in, func(ch ssa.Value) bool { return PathOf(ch).LastField() == s.FStateChan })
+			}})) > 0 {
+				waitFns = appendUniq(waitFns, f)
+			}
+		}
+		if c.Check(len(waitFns) >= 1, rule, "wait-fn", "", "daemon wait found", "no function waits on procStateChan") {
+			wsite := CallOfFn("daemon wait", waitFns...)
+			isPred := func(f *ssa.Function) bool {
+				if f == nil || !s.IsProcessMethod(f) || f.Signature.Results().Len() != 1 {
+					return false
+				}
+				return len(FindInstrs(f, func(in ssa.Instruction) bool { return IsLoadOf(in, s.FIsDaemon) })) > 0
+			}
+			for _, re := range s.RunEntries {
+				calls := DirectSites(re, wsite)
+				c.Check(len(calls) >= 1, rule, "called:"+p.FuncKey(re), FirstPos(p, re), "the run loop waits for a launched daemon", "the run loop never waits for a launched daemon: it is reported Completed as soon as its launcher exits")
+				for _, wc := range calls {
+					ok := true
+					for _, g := range GuardsOf(wc) {
+						v, val := g.BoolVal()
+						if pc, isC := stripConv(v).(*ssa.Call); isC && isPred(pc.Call.StaticCallee()) && !val {
+							ok = false
+						}
+					}
+					// before the restart decision
+					for _, rd := range DirectSites(re, CallOfFn("restart decision", s.RestartDecs...)) {
+						if DominatesInstr(rd, wc) {
+							ok = false
+						}
+					}
+					c.Check(ok, rule, "guard:"+p.FuncKey(re), p.InstrPos(wc), "made when the daemon predicate holds, before the restart decision", "the daemon wait is made only when the process is NOT a launched daemon (or after the restart decision): a daemon is treated as exited when its launcher returns")
+				}
+			}
+			// the predicate itself: IsDaemon && ExitCode == 0
+			for _, f := range p.FuncsOfPkg("app") {
+				if !isPred(f) || f.Parent() != nil || len(f.Params) != 1 {
+					continue
+				}
+				readsExit := false
+				okCmp := true
+				AllInstrs(f, func(in ssa.Instruction) {
+					if bo, ok := in.(*ssa.BinOp); ok {
+						if PathOf(bo.X).LastField() == s.FExitCode || PathOf(bo.Y).LastField() == s.FExitCode {
+							readsExit = true
+							k, isK := ConstInt(bo.Y)
+							if !isK {
+								k, isK = ConstInt(bo.X)
+							}
+							if !(bo.Op == token.EQL && isK && k == 0) {
+								okCmp = false
+							}
+						}
+					}
+				})
+				if readsExit {
+					c.Check(okCmp, rule, "predicate:"+p.FuncKey(f), FirstPos(p, f), "daemon launched <=> IsDaemon and launcher exit code == 0", "the daemon predicate does not test the launcher's exit code for == 0")
+				}
+			}
+		}
+	}
+	s.checkTerminalStopsProbers(c, "terminal-stops-probers")
+	s.checkProbeFailureIsError(c, "probe-failure-is-error")
+	s.checkIncompatibleHealthChecksRejected(c, "ready-line-and-probe-rejected")
 	// every stop of a running process stops its probers first, whoever asked for the stop: the failure counter of a
 	// prober is reset only by stopping it, and "threshold reached" is an equality test
 	{
@@ -525,6 +685,158 @@ func (s *Sel) checkStatusStoreCallsHook(c *Ctx, ruleID string) {
 				}
 			}
 			c.Check(r.OK && sameArg, rule, "store:"+p.FuncKey(f), p.InstrPos(in), "the hook follows the store with the same value", "Status is assigned without running the status-change hook: the readiness of the previous run is not forgotten (a restarting process keeps reporting Ready) and never-run states keep exit code 0")
+		}
+	}
+}
+
+// checkProbeFailureIsError (C01, C10): the exec checker reports a failure whenever running the probe command
+// returned an error - whatever kind of error (non-zero exit, killed by the probe timeout, not startable).
+func (s *Sel) checkProbeFailureIsError(c *Ctx, ruleID string) {
+	p := c.P
+	rule := c.Rule(ruleID, "in every checker of the health package that runs a command, on the edge on which Run() returned a non-nil error every path returns a non-nil error (a probe command killed by its timeout or by a signal has no ordinary exit status and must not count as a success)")
+	n := 0
+	for _, f := range p.FuncsOfPkg("health") {
+		res := f.Signature.Results()
+		if res.Len() != 2 || res.At(1).Type().String() != "error" {
+			continue
+		}
+		AllInstrs(f, func(in ssa.Instruction) {
+			call, ok := in.(*ssa.Call)
+			if !ok {
+				return
+			}
+			o := CalleeObj(&call.Call)
+			if o == nil || o.Name() != "Run" || o.Pkg() == nil || !strings.HasSuffix(o.Pkg().Path(), "/src/command") {
+				return
+			}
+			n++
+			c.Touch(f)
+			ok2 := true
+			nRet := 0
+			for x := range Reach([]Pt{after(call)}, nil, ErrNilEdge(call, false)) {
+				if ret, isRet := x.(*ssa.Return); isRet {
+					nRet++
+					if IsNilConst(RetVals(ret)[1]) {
+						ok2 = false
+					}
+				}
+			}
+			c.Check(ok2 && nRet > 0, rule, p.FuncKey(f), p.InstrPos(call), "a failed probe command is reported as a failure", "when the probe command's Run() returns an error the checker can still report success (for instance because only positive exit codes are treated as failures): a probe that hangs until its timeout kills it, or dies from a signal, makes the process Ready and releases its process_healthy dependents")
+		})
+	}
+	if n == 0 {
+		c.Bad(rule, "none", "", "no checker in the health package runs a probe command")
+	}
+}
+
+// checkIncompatibleHealthChecksRejected (C01, C10): a readiness probe together with a ready log line is rejected
+// unconditionally - the output handler reports Ready on the log line, which would release process_healthy
+// dependents of a process whose probe never passed.
+func (s *Sel) checkIncompatibleHealthChecksRejected(c *Ctx, ruleID string) {
+	p := c.P
+	rule := c.Rule(ruleID, "a registered validator returns a non-nil error, without consulting the strict flag, on the edge on which a process has both a readiness probe and a ready log line (the output handler stores Health=Ready when the line is printed; process_healthy waits accept that)")
+	lp := p.loadPipeline()
+	fReady := p.Field("types", "ProcessConfig", "ReadinessProbe")
+	fStrict := p.Field("types", "Project", "IsStrict")
+	// only needed while the output handler may set Ready from the log line
+	setsReady := false
+	readyConst, _ := constString(p.Const("types", "ProcessHealthReady"))
+	for _, f := range p.FuncsOfPkg("app") {
+		for _, in := range DirectSites(f, StoreTo("Health", s.FHealth)) {
+			if v, ok := StoredValue(in, s.FHealth); ok {
+				if sv, isC := ConstString(v); isC && sv == readyConst {
+					for _, gd := range GuardsOf(in) {
+						if cmp, isCmp := gd.Cmp(); isCmp && (PathOf(cmp.X).LastField() == s.FReadyLogLine || PathOf(cmp.Y).LastField() == s.FReadyLogLine) {
+							setsReady = true
+						}
+					}
+				}
+			}
+		}
+	}
+	if !setsReady {
+		c.OK(rule, "not-needed", "", "no code reports Ready from the ready log line")
+		return
+	}
+	found := false
+	for _, v := range lp.Validators {
+		for _, b := range v.Blocks {
+			ifi := IfOf(b)
+			if ifi == nil {
+				continue
+			}
+			cmp, ok := CondCmp(ifi.Cond)
+			if !ok || PathOf(cmp.X).LastField() != s.FReadyLogLine && PathOf(cmp.Y).LastField() != s.FReadyLogLine {
+				continue
+			}
+			// the block is reached under ReadinessProbe != nil
+			probeGuard := false
+			for _, gd := range GuardsOf(ifi) {
+				if c2, isCmp := gd.Cmp(); isCmp && (PathOf(c2.X).LastField() == fReady || PathOf(c2.Y).LastField() == fReady) {
+					probeGuard = true
+				}
+			}
+			if !probeGuard {
+				continue
+			}
+			succ := 0
+			if cmp.Op == token.EQL {
+				succ = 1
+			}
+			good := true
+			nRet := 0
+			for x := range Reach([]Pt{{b.Succs[succ], 0}}, nil, nil) {
+				if IsLoadOf(x, fStrict) {
+					good = false
+				}
+				if _, isNext := x.(*ssa.Next); isNext {
+					good = false
+				}
+				if ret, isRet := x.(*ssa.Return); isRet {
+					nRet++
+					if IsNilConst(RetVals(ret)[0]) {
+						good = false
+					}
+				}
+			}
+			if good && nRet > 0 {
+				found = true
+				c.Touch(v)
+			}
+		}
+	}
+	c.Check(found, rule, "unconditional-rejection", FirstPos(p, lp.Load), "the combination is rejected unconditionally", "no registered validator rejects a process with both a readiness probe and a ready log line unconditionally (only in strict mode, or not at all): printing the line reports the process Ready, so a process_healthy dependent is launched although the probe never passed")
+}
+
+// checkTerminalStopsProbers (C03, C10): the terminal function stops both probers on every path, so no probe command
+// is launched for a process that has ended and a Completed/Skipped process cannot be flipped to Ready later.
+func (s *Sel) checkTerminalStopsProbers(c *Ctx, ruleID string) {
+	p := c.P
+	rule := c.Rule(ruleID, "every path through the terminal function passes a call that may stop readyProber and liveProber (Prober.Stop when set)")
+	proberStop := p.TryMethod("health", "Prober", "Stop")
+	if !c.Check(proberStop != nil, rule, "shape", "", "Prober.Stop found", "Prober.Stop not found") {
+		return
+	}
+	for _, t := range s.Terminals {
+		c.Touch(t)
+		for _, fld := range []*types.Var{s.FReadyProber, s.FLiveProber} {
+			stopD := p.Deep(Site{Name: "Prober.Stop on " + fld.Name(), Call: func(cc *ssa.CallCommon) bool {
+				return cc.StaticCallee() == proberStop && len(cc.Args) > 0 && PathOf(cc.Args[0]).LastField() == fld
+			}})
+			barrier := func(in ssa.Instruction) bool {
+				switch in.(type) {
+				case *ssa.Go, *ssa.Defer:
+					return false
+				}
+				return stopD.MayAt(in)
+			}
+			bad := false
+			for in := range Reach(Entry(t), barrier, nil) {
+				if _, isRet := in.(*ssa.Return); isRet {
+					bad = true
+				}
+			}
+			c.Check(!bad, rule, p.FuncKey(t)+":"+p.CanonName(fld), FirstPos(p, t), "stopped on every path", "the terminal function can return without stopping "+fld.Name()+": its probe commands keep being launched for a process that has ended (also after the project shutdown returned), and a later success reports a finished process Ready")
 		}
 	}
 }
